@@ -269,7 +269,14 @@ func (b *kvBox[K, V]) CheckSorted(st *Stats) *Viol {
 func anyCmp(x, y any) int {
 	switch a := x.(type) {
 	case int:
-		return a - y.(int)
+		b := y.(int)
+		switch {
+		case a < b:
+			return -1
+		case a > b:
+			return 1
+		}
+		return 0
 	case Val:
 		return int(a - y.(Val))
 	case float64:
